@@ -331,7 +331,7 @@ UNITS['U04d'] = dict(
     not_covered=['column::decode control structure (section stack), string / compression arms, `UnhexpackStrings => todo!()`'])
 
 UNITS['U22k'] = dict(
-    kind='kani', crate='kani/U22', timeout_s=900, mem_gb=12, jobs=2,
+    kind='kani', crate='kani/U22', timeout_s=700, mem_gb=12, jobs=2,
     title='BOUNDED (3 columns, two fixed name sets, every grouping into files): inner_locustdb::subpartition + lookup-map construction (slice) + PartitionMetadata::subpartition_key',
     harnesses=[dict(name='proofs::%s' % n, bounded='3 one-byte columns named %s, size limit 1..=3 (all three groupings), unwind 6' % names, unwind=6, clause='every column lands in exactly one file; files hold ascending runs (byte order) of the names; each file is keyed by its last name', fn='subpartition')
                for (n, names) in [('mixed_case_names_layout', '{a, B, c}'), ('prefix_names_layout', '{ab, a, abc}')]]
